@@ -13,20 +13,32 @@ from . import terms as T
 
 
 class Graph(object):
+    """kinds: 1 input, 2 AND, 3 XOR (plain mode only), 4 XOR-set (canonical mode), 5 LUT (canonical mode).
+
+    canonical mode (affine=True): every literal is kept in XOR normal form -- a constant (the literal's polarity),
+    a bit mask over the inputs and a set of non-linear atoms (AND nodes, LUT nodes); XOR is computed on the forms
+    and the result is looked up by its form, so two functions with the same XOR normal form are the same literal
+    however and in whatever order they were computed.  LUT atoms are k-input truth tables (k <= 10) over positive
+    input literals in increasing order, normalised to tt(0..0) = 0; XOR of two LUT atoms over the same inputs is
+    one LUT atom (truth tables xor-ed), so table-driven AES (T-tables) and S-box + MixColumns AES meet."""
+
     def __init__(self, affine=False):
-        self.kind = [0, 0]      # node 0 reserved (constants); kind: 1 input, 2 and, 3 xor, 4 affine (XOR of a set of inputs)
+        self.kind = [0, 0]
         self.a = [0, 0]
         self.b = [0, 0]
         self.hash = {}
         self.names = {}
         self.ninputs = 0
-        # affine mode: every literal that is a GF(2)-affine function of the inputs is kept in canonical form
-        # (bit mask over input indices, constant = literal polarity), so two affine-equal functions are the same
-        # literal however they were computed; XOR of non-affine operands falls back to hashed XOR nodes
         self.affine = affine
-        self.mask = {}          # node -> int bit mask over input indices (inputs and kind-4 nodes)
         self.inputs = []        # input index -> node
-        self.aff_hash = {}      # mask -> node
+        self.inidx = {}         # input node -> index
+        self.form = {}          # kind-4 node -> (mask, frozenset(atom nodes))
+        self.form_hash = {}     # (mask, frozenset) -> node
+        self.lut = {}           # kind-5 node -> (ins tuple of positive literals, tt int)
+        self.lut_hash = {}
+        self._lut_cache = {}
+        self._ltt_cache = {}
+        self._mux_cache = {}
 
     def new_input(self, name):
         n = len(self.kind)
@@ -34,48 +46,305 @@ class Graph(object):
         self.a.append(0)
         self.b.append(0)
         self.names[n] = name
-        if self.affine:
-            m = 1 << self.ninputs
-            self.mask[n] = m
-            self.aff_hash[m] = n
+        self.inidx[n] = self.ninputs
         self.inputs.append(n)
         self.ninputs += 1
         return 2 * n
 
-    def from_mask(self, m):
-        """literal of the canonical node for the XOR of the inputs in mask m"""
-        if m == 0:
-            return 0
-        n = self.aff_hash.get(m)
+    # ---- canonical XOR forms ----
+    def form_of(self, node):
+        k = self.kind[node]
+        if k == 1:
+            return (1 << self.inidx[node], frozenset())
+        if k == 4:
+            return self.form[node]
+        return (0, frozenset((node,)))
+
+    def from_form(self, mask, fs):
+        if not fs:
+            if mask == 0:
+                return 0
+            if mask & (mask - 1) == 0:
+                return 2 * self.inputs[mask.bit_length() - 1]
+        elif mask == 0 and len(fs) == 1:
+            for n in fs:
+                return 2 * n
+        key = (mask, fs)
+        n = self.form_hash.get(key)
         if n is None:
             n = len(self.kind)
             self.kind.append(4)
             self.a.append(0)
             self.b.append(0)
-            self.mask[n] = m
-            self.aff_hash[m] = n
+            self.form[n] = key
+            self.form_hash[key] = n
         return 2 * n
 
+    def from_mask(self, m):
+        return self.from_form(m, frozenset())
+
+    def _merge_luts(self, fs, extra):
+        """symmetric difference of atom sets fs and extra; LUT atoms over the same inputs are merged"""
+        out = set(fs)
+        byins = None
+        for a in extra:
+            if a in out:
+                out.discard(a)
+                continue
+            if self.kind[a] == 5:
+                if byins is None:
+                    byins = {}
+                    for x in out:
+                        if self.kind[x] == 5:
+                            byins[self.lut[x][0]] = x
+                ins, tt = self.lut[a]
+                o = byins.get(ins)
+                if o is not None and o in out:
+                    out.discard(o)
+                    ntt = self.lut[o][1] ^ tt
+                    if ntt:
+                        m = self._lut_node(ins, ntt)
+                        # m is 2*node (tt(0) = 0 is preserved by xor)
+                        out.add(m >> 1)
+                        byins[ins] = m >> 1
+                    else:
+                        del byins[ins]
+                    continue
+                byins[ins] = a
+            out.add(a)
+        return frozenset(out)
+
     def xor_many(self, lits):
-        """XOR of many literals; in affine mode affine operands are folded on masks first"""
         if not self.affine:
             r = 0
             for l in lits:
                 r = self.XOR(r, l)
             return r
-        m, neg, rest = 0, 0, 0
+        m, neg, fs = 0, 0, frozenset()
         for l in lits:
             if l <= 1:
                 neg ^= l
                 continue
-            fm = self.mask.get(l >> 1)
-            if fm is None:
-                rest = self.XOR(rest, l)
+            fm, ff = self.form_of(l >> 1)
+            m ^= fm
+            neg ^= l & 1
+            if ff:
+                fs = self._merge_luts(fs, ff) if fs else ff
+        return self.from_form(m, fs) ^ neg
+
+    # ---- LUT atoms ----
+    def _lut_node(self, ins, tt):
+        key = (ins, tt)
+        n = self.lut_hash.get(key)
+        if n is None:
+            n = len(self.kind)
+            self.kind.append(5)
+            self.a.append(0)
+            self.b.append(0)
+            self.lut[n] = key
+            self.lut_hash[key] = n
+        return 2 * n
+
+    def lut_bits(self, ins, table, w):
+        """ins: k literals (LSB first); table: 2^k ints of w bits; returns w literals (canonical mode only)"""
+        k = len(ins)
+        ckey = (tuple(ins), tuple(table), w)
+        r = self._lut_cache.get(ckey)
+        if r is not None:
+            return list(r)
+        r = self._lut_bits(ins, table, w)
+        if len(self._lut_cache) > 400000:
+            self._lut_cache.clear()
+        self._lut_cache[ckey] = tuple(r)
+        return r
+
+    def _lut_bits(self, ins, table, w):
+        k = len(ins)
+        # constants and negations are absorbed into the table; inputs sorted by literal
+        var = []
+        base = 0
+        flip = 0
+        for i, l in enumerate(ins):
+            if l <= 1:
+                base |= l << i
             else:
-                m ^= fm
-                neg ^= l & 1
-        r = self.from_mask(m) ^ neg
-        return self.XOR(r, rest) if rest else r
+                var.append((l & ~1, i))
+                if l & 1:
+                    flip |= 1 << i
+        var.sort()
+        # duplicate input nodes: keep first, tie the others
+        pos = [i for _, i in var]
+        lits = [l for l, _ in var]
+        dup = {}
+        ulits, upos = [], []
+        for l, i in zip(lits, pos):
+            if l in dup:
+                dup[l].append(i)
+            else:
+                dup[l] = [i]
+                ulits.append(l)
+                upos.append(dup[l])
+        kk = len(ulits)
+        if kk > 12:
+            raise T_Unsupported("LUT with %d symbolic inputs" % kk)
+        if kk == k and flip == 0 and all(upos[j] == [j] for j in range(kk)):
+            vals = table
+        else:
+            vals = []
+            for x in range(1 << kk):
+                idx = base
+                for j in range(kk):
+                    if (x >> j) & 1:
+                        for i in upos[j]:
+                            idx |= 1 << i
+                vals.append(table[idx ^ flip])
+        out = []
+        ins_t = tuple(ulits)
+        tk = (tuple(vals), w)
+        tts = _tt_cache.get(tk)
+        if tts is None:
+            tts = []
+            full = (1 << (1 << kk)) - 1
+            for bit in range(w):
+                tt = 0
+                for x, v in enumerate(vals):
+                    if (v >> bit) & 1:
+                        tt |= 1 << x
+                c = tt & 1
+                if c:
+                    tt ^= full
+                tts.append((tt, c))
+            if len(_tt_cache) > 100000:
+                _tt_cache.clear()
+            _tt_cache[tk] = tts
+        for tt, c in tts:
+            if tt == 0:
+                out.append(c)
+                continue
+            lit = None
+            for j in range(kk):     # projection on one input?
+                if tt == _VARTT(kk, j):
+                    lit = ulits[j]
+                    break
+            if lit is None:
+                lit = self._lut_node(ins_t, tt)
+            out.append(lit ^ c)
+        return out
+
+    def local_tt(self, lit, U):
+        """truth table of literal lit as a function of the positive literals U (tuple), or None if it depends on more"""
+        k = len(U)
+        full = (1 << (1 << k)) - 1
+        if lit <= 1:
+            return full if lit else 0
+        ck = (lit, U)
+        if ck in self._ltt_cache:
+            return self._ltt_cache[ck]
+        r = self._local_tt(lit, U, k, full)
+        if len(self._ltt_cache) > 400000:
+            self._ltt_cache.clear()
+        self._ltt_cache[ck] = r
+        return r
+
+    def _local_tt(self, lit, U, k, full):
+        neg = full if lit & 1 else 0
+        n = lit >> 1
+        if 2 * n in U:
+            return _VARTT(k, U.index(2 * n)) ^ neg
+        kd = self.kind[n]
+        if kd == 5:
+            ins, tt = self.lut[n]
+            try:
+                pos = [U.index(l) for l in ins]
+            except ValueError:
+                return None
+            r = 0
+            for x in range(1 << k):
+                idx = 0
+                for j, pj in enumerate(pos):
+                    if (x >> pj) & 1:
+                        idx |= 1 << j
+                if (tt >> idx) & 1:
+                    r |= 1 << x
+            return r ^ neg
+        if kd == 4:
+            r = 0
+            for l in self.children(n):
+                t = self.local_tt(l, U)
+                if t is None:
+                    return None
+                r ^= t
+            return r ^ neg
+        return None
+
+    def support_hint(self, lit):
+        """small set of positive literals lit is a LUT/XOR function of (None if it is an AND or too wide)"""
+        if lit <= 1:
+            return ()
+        n = lit >> 1
+        kd = self.kind[n]
+        if kd == 1:
+            return (2 * n,)
+        if kd == 5:
+            return self.lut[n][0]
+        if kd == 4:
+            out = set()
+            for l in self.children(n):
+                h = self.support_hint(l)
+                if h is None:
+                    return None
+                out.update(h)
+                if len(out) > 12:
+                    return None
+            return tuple(sorted(out))
+        return None
+
+    def mux_select(self, sel, entries):
+        """sel: k literals (LSB first); entries: 2^k literals; returns the selected literal.  Canonical mode: when all
+        entries are LUT/XOR functions of a small common support, the result is one LUT over support + selector"""
+        k = len(sel)
+        ck = (tuple(sel), tuple(entries))
+        r = self._mux_cache.get(ck)
+        if r is None:
+            r = self._mux_select(sel, entries)
+            if len(self._mux_cache) > 400000:
+                self._mux_cache.clear()
+            self._mux_cache[ck] = r
+        return r
+
+    def _mux_select(self, sel, entries):
+        k = len(sel)
+        if self.affine and all(s > 1 for s in sel):
+            U = set()
+            ok = True
+            for e in entries:
+                h = self.support_hint(e)
+                if h is None:
+                    ok = False
+                    break
+                U.update(h)
+                if len(U) + k > 12:
+                    ok = False
+                    break
+            if ok:
+                U = tuple(sorted(U))
+                if not (set(U) & set(s & ~1 for s in sel)):
+                    tts = [self.local_tt(e, U) for e in entries]
+                    if all(t is not None for t in tts):
+                        tk = (tuple(tts), len(U))
+                        table = _tt_cache.get(tk)
+                        if table is None:
+                            table = []
+                            for x in range(1 << (len(U) + k)):
+                                y, h = x & ((1 << len(U)) - 1), x >> len(U)
+                                table.append((tts[h] >> y) & 1)
+                            table = tuple(table)
+                            _tt_cache[tk] = table
+                        return self.lut_bits(list(U) + list(sel), table, 1)[0]
+        level = list(entries)
+        for c in sel:
+            level = [self.MUX(c, level[2 * j + 1], level[2 * j]) for j in range(len(level) // 2)]
+        return level[0]
 
     def AND(self, x, y):
         if x > y:
@@ -110,11 +379,13 @@ class Graph(object):
         if x == y:
             return neg
         if self.affine:
-            mx = self.mask.get(x >> 1)
-            if mx is not None:
-                my = self.mask.get(y >> 1)
-                if my is not None:
-                    return self.from_mask(mx ^ my) ^ neg
+            mx, fx = self.form_of(x >> 1)
+            my, fy = self.form_of(y >> 1)
+            if fx and fy:
+                fs = self._merge_luts(fx, fy)
+            else:
+                fs = fx or fy
+            return self.from_form(mx ^ my, fs) ^ neg
         key = (3, x, y)
         r = self.hash.get(key)
         if r is None:
@@ -141,6 +412,41 @@ class Graph(object):
 
     def size(self):
         return len(self.kind)
+
+    def children(self, n):
+        """literals a node directly depends on"""
+        k = self.kind[n]
+        if k in (2, 3):
+            return [self.a[n], self.b[n]]
+        if k == 4:
+            m, fs = self.form[n]
+            out = [2 * x for x in fs]
+            i = 0
+            while m:
+                if m & 1:
+                    out.append(2 * self.inputs[i])
+                m >>= 1
+                i += 1
+            return out
+        if k == 5:
+            return list(self.lut[n][0])
+        return []
+
+
+_vartt_cache = {}
+_tt_cache = {}
+
+
+def _VARTT(k, j):
+    key = (k, j)
+    r = _vartt_cache.get(key)
+    if r is None:
+        r = 0
+        for x in range(1 << k):
+            if (x >> j) & 1:
+                r |= 1 << x
+        _vartt_cache[key] = r
+    return r
 
 
 G = Graph()
@@ -323,31 +629,69 @@ def simulate(g, nwords, rnd, patterns=()):
     mask = (1 << (64 * nwords)) - 1
     val = [0] * g.size()
     np_ = len(patterns)
-    for n in range(2, g.size()):
+
+    def lv(l):
+        return val[l >> 1] ^ (mask if l & 1 else 0)
+    # inputs first (canonical nodes may precede inputs created later)
+    for n in g.inputs:
+        v = rnd.getrandbits(64 * nwords)
+        if np_:
+            nm = g.names.get(n)
+            v &= ~((1 << np_) - 1)
+            for j, pat in enumerate(patterns):
+                if pat.get(nm, False):
+                    v |= 1 << j
+        val[n] = v
+    order = range(2, g.size())
+    if g.affine:
+        order = topo(g)
+    for n in order:
         k = g.kind[n]
         if k == 1:
-            v = rnd.getrandbits(64 * nwords)
-            if np_:
-                nm = g.names.get(n)
-                v &= ~((1 << np_) - 1)
-                for j, pat in enumerate(patterns):
-                    if pat.get(nm, False):
-                        v |= 1 << j
+            continue
+        if k == 4:
+            v = 0
+            for l in g.children(n):
+                v ^= val[l >> 1]
             val[n] = v
-        elif k == 4:
-            v, m, i = 0, g.mask[n], 0
-            while m:
-                if m & 1:
-                    v ^= val[g.inputs[i]]
-                m >>= 1
-                i += 1
-            val[n] = v
+        elif k == 5:
+            ins, tt = g.lut[n]
+            level = [mask if (tt >> x) & 1 else 0 for x in range(1 << len(ins))]
+            for l in ins:
+                c = lv(l)
+                nc = c ^ mask
+                level = [(c & level[2 * j + 1]) | (nc & level[2 * j]) for j in range(len(level) // 2)]
+            val[n] = level[0]
         else:
             x, y = g.a[n], g.b[n]
             vx = val[x >> 1] ^ (mask if x & 1 else 0)
             vy = val[y >> 1] ^ (mask if y & 1 else 0)
             val[n] = (vx & vy) if k == 2 else (vx ^ vy)
     return val, mask
+
+
+def topo(g):
+    """node order in which children precede parents (canonical mode creates nodes out of order)"""
+    seen = [False] * g.size()
+    out = []
+    for r in range(2, g.size()):
+        if seen[r]:
+            continue
+        stack = [(r, 0)]
+        while stack:
+            n, st = stack.pop()
+            if st == 0:
+                if seen[n]:
+                    continue
+                seen[n] = True
+                stack.append((n, 1))
+                for l in g.children(n):
+                    c = l >> 1
+                    if c > 1 and not seen[c]:
+                        stack.append((c, 0))
+            else:
+                out.append(n)
+    return out
 
 
 def cone(g, roots):
@@ -358,17 +702,9 @@ def cone(g, roots):
         if n in seen:
             continue
         seen.add(n)
-        if g.kind[n] in (2, 3):
-            for l in (g.a[n], g.b[n]):
-                if l > 1:
-                    stack.append(l >> 1)
-        elif g.kind[n] == 4:
-            m, i = g.mask[n], 0
-            while m:
-                if m & 1:
-                    seen.add(g.inputs[i])
-                m >>= 1
-                i += 1
+        for l in g.children(n):
+            if l > 1:
+                stack.append(l >> 1)
     return seen
 
 
@@ -389,13 +725,7 @@ def to_cnf(g, lits_true, any_of=()):
     for n in nodes:
         k = g.kind[n]
         if k == 4:
-            # chain of XORs over the inputs of the mask, fresh auxiliary variables
-            ins, m, i = [], g.mask[n], 0
-            while m:
-                if m & 1:
-                    ins.append(vm[g.inputs[i]])
-                m >>= 1
-                i += 1
+            ins = [vm[l >> 1] for l in g.children(n)]
             acc = ins[0]
             for j, v in enumerate(ins[1:]):
                 if j == len(ins) - 2:
@@ -405,6 +735,14 @@ def to_cnf(g, lits_true, any_of=()):
                     z = nextvar[0]
                 xor3(z, acc, v)
                 acc = z
+            continue
+        if k == 5:
+            ins, tt = g.lut[n]
+            z = vm[n]
+            for x in range(1 << len(ins)):
+                c = [(-vm[l >> 1] if (x >> j) & 1 else vm[l >> 1]) for j, l in enumerate(ins)]
+                c.append(z if (tt >> x) & 1 else -z)
+                cl.append(tuple(c))
             continue
         if k == 2:
             x, y, z = L(g.a[n]), L(g.b[n]), vm[n]
